@@ -3,11 +3,11 @@
 package main
 
 import (
-	"sync/atomic"
 	"encoding/json"
 	"fmt"
 	"math/rand"
 	"sync"
+	"sync/atomic"
 	"time"
 
 	fpgo "github.com/TeaEntityLab/fpGo/v2"
@@ -359,8 +359,9 @@ func c08Stress(w *ndWriter, seed int64, stack bool, P, Cn, n int) {
 // wide rounds: many goroutines, many calls - too wide for the linearisation search, judged by the necessary conditions of the
 // statement (Trace_ConcWide.tla): no panic, every offered value delivered exactly once after the drain, nothing invented,
 // a consumer sees each producer's values in order (queue).
-//   trickle: producers slower than the consumers, which spin on Take/Poll - the structure is empty most of the time
-//   burst:   producers first build a backlog of `per` values each (thousands pending), then the consumers drain, twice
+//
+//	trickle: producers slower than the consumers, which spin on Take/Poll - the structure is empty most of the time
+//	burst:   producers first build a backlog of `per` values each (thousands pending), then the consumers drain, twice
 type c08WideOut struct {
 	Kind    string           `json:"kind"`
 	Shape   string           `json:"shape"`
